@@ -1,3 +1,12 @@
 import InToto.Properties.C18
-#print axioms InToto.C18.examples
+#print axioms InToto.C18.replace_meets_spec
+#print axioms InToto.C18.spec_functional
+#print axioms InToto.C18.order_free
+#print axioms InToto.C18.marker_replaced_once
+#print axioms InToto.C18.other_text_unchanged
+#print axioms InToto.C18.step_other_fields
+#print axioms InToto.C18.inspection_other_fields
+#print axioms InToto.C18.layout_other_fields
 #print axioms InToto.C18.no_parameters
+#print axioms InToto.C18.invalid_name_rejected
+#print axioms InToto.C18.examples
